@@ -330,7 +330,8 @@ def run_body(ctx, fr, body, acc):
             salt = s[1] if len(s) > 1 else ''
             wopts = s[2] if len(s) > 2 else {}
             try:
-                ctx.user_write(fr.target, (acc + salt).encode('utf-8'), wopts.get('stamp') == 'fixed')
+                ctx.user_write(fr.target, b'' if wopts.get('empty') else (acc + salt).encode('utf-8'),
+                               wopts.get('stamp') == 'fixed')
             except OSError:
                 if not wopts.get('swallow'):
                     raise
